@@ -113,6 +113,8 @@ package schema
 //@ nonnil *StepOutputSchema
 //@ nonnil Object
 //@ nonnil CallableStep
+//@ nonnil *StepSchema
+//@ invariant StepSchema(s): s.InputValue != nil
 //@ nonnil CallableSignal
 //@ nonnil *SignalSchema
 //@ invariant SignalSchema(s): s.DataSchemaValue != nil
@@ -680,3 +682,95 @@ package schema
 //@ func MapSchema.Unserialize(m, data) -> res, err
 //@   checks err != nil && kindOf(data) == KindMap && sizeOK(m.MinValue, m.MaxValue, listLen(data)) ==> (!unserOK(m.KeysValue, mapKey(data, $idx1 + 1)) ? err == addedSeg(unserErr(m.KeysValue, mapKey(data, $idx1 + 1)), sprintf1("{%v}", mapKey(data, $idx1 + 1))) : err == addedSeg(unserErr(m.ValuesValue, mapVal(data, $idx1 + 1)), sprintf1("[%v]", mapKey(data, $idx1 + 1))))
 //@   checks err != nil && !(kindOf(data) == KindMap && sizeOK(m.MinValue, m.MaxValue, listLen(data))) ==> leafCE(err)
+
+// ---------------------------------------------------------------------------------------------
+// C14: lexical references. applied(x, objects, ns) is an event predicate: "ApplyNamespace(objects, ns) has
+// been called on x". It is only ever introduced by a call, so a container's postcondition "applied for every
+// child, with this table and this namespace" can only be proved from the calls the code really makes.
+// ---------------------------------------------------------------------------------------------
+
+//@ abstract applied(x any, objects map[string]*ObjectSchema, ns string) bool
+//@ abstract selfApplied(x any) bool
+//@ abstract refsOK(x any) bool
+//@ interface Type.ApplyNamespace(this, objects, namespace)
+//@   names applied(this, objects, namespace)
+//@ interface Type.ValidateReferences(this) -> err
+//@   names (err == nil) == refsOK(this)
+//@   assigns nothing
+//@ interface Scope.ApplySelf(this)
+//@   names selfApplied(this)
+
+//@ func RefSchema.ApplyNamespace(r, objects, namespace)
+//@   requires namespace == r.ObjectNamespace ==> r.IDValue in objects
+//@   ensures namespace != r.ObjectNamespace ==> r.referencedObjectCache == old(r.referencedObjectCache)
+//@   ensures namespace == r.ObjectNamespace ==> r.referencedObjectCache == any(objects[r.IDValue])
+//@   assigns r.referencedObjectCache
+
+//@ func RefSchema.ValidateReferences(r) -> err
+//@   ensures (err == nil) == (r.referencedObjectCache != nil)
+//@   assigns nothing
+
+//@ func RefSchema.Unserialize(r, data) -> res, err
+//@   requires r.referencedObjectCache != nil
+//@   ensures (err == nil) == unserOK(r.referencedObjectCache, data)
+//@   ensures err == nil ==> res == unserV(r.referencedObjectCache, data)
+//@ func RefSchema.Validate(r, data) -> err
+//@   requires r.referencedObjectCache != nil
+//@   ensures (err == nil) == validOK(r.referencedObjectCache, data)
+//@ func RefSchema.Serialize(r, data) -> res, err
+//@   requires r.referencedObjectCache != nil
+//@   ensures (err == nil) == serOK(r.referencedObjectCache, data)
+//@   ensures err == nil ==> res == serV(r.referencedObjectCache, data)
+
+//@ func PropertySchema.ApplyNamespace(p, objects, namespace)
+//@   names applied(any(p), objects, namespace)
+//@   ensures applied(p.TypeValue, objects, namespace)
+//@ func PropertySchema.ValidateReferences(p) -> err
+//@   names (err == nil) == refsOK(any(p))
+//@   ensures (err == nil) == refsOK(p.TypeValue)
+
+//@ func ObjectSchema.ApplyNamespace(o, objects, namespace)
+//@   names applied(any(o), objects, namespace)
+//@   ensures forall k string :: k in o.PropertiesValue ==> applied(any(o.PropertiesValue[k]), objects, namespace)
+//@   loop 1 invariant o.PropertiesValue == old(o.PropertiesValue) && (forall k string :: k in visited ==> applied(any(o.PropertiesValue[k]), objects, namespace))
+//@ func ObjectSchema.ValidateReferences(o) -> err
+//@   names (err == nil) == refsOK(any(o))
+//@   ensures err == nil ==> (forall k string :: k in o.PropertiesValue ==> refsOK(any(o.PropertiesValue[k])))
+//@   ensures err != nil ==> (exists k string :: k in o.PropertiesValue && !refsOK(any(o.PropertiesValue[k])))
+//@   loop 1 invariant forall k string :: k in visited ==> refsOK(any(o.PropertiesValue[k]))
+
+//@ func AbstractListSchema.ApplyNamespace(l, objects, namespace)
+//@   ensures applied(l.ItemsValue, objects, namespace)
+//@ func AbstractListSchema.ValidateReferences(l) -> err
+//@   ensures (err == nil) == refsOK(l.ItemsValue)
+//@ func MapSchema.ApplyNamespace(m, objects, namespace)
+//@   ensures applied(m.KeysValue, objects, namespace) && applied(m.ValuesValue, objects, namespace)
+//@ func MapSchema.ValidateReferences(m) -> err
+//@   ensures (err == nil) == (refsOK(m.KeysValue) && refsOK(m.ValuesValue))
+//@ func StepOutputSchema.ApplyNamespace(s, objects, namespace)
+//@   ensures applied(s.SchemaValue, objects, namespace)
+//@ func StepOutputSchema.ValidateReferences(s) -> err
+//@   ensures (err == nil) == refsOK(s.SchemaValue)
+
+//@ func ScopeSchema.ApplyNamespace(s, externalObjects, namespace)
+//@   ensures forall k string :: k in s.ObjectsValue ==> applied(any(s.ObjectsValue[k]), namespace == SelfNamespace ? s.ObjectsValue : externalObjects, namespace)
+//@   loop 1 invariant s.ObjectsValue == old(s.ObjectsValue) && (forall k string :: k in visited ==> applied(any(s.ObjectsValue[k]), namespace == SelfNamespace ? s.ObjectsValue : externalObjects, namespace))
+//@ func ScopeSchema.ValidateReferences(s) -> err
+//@   ensures err == nil ==> (forall k string :: k in s.ObjectsValue ==> refsOK(any(s.ObjectsValue[k])))
+//@   ensures err != nil ==> (exists k string :: k in s.ObjectsValue && !refsOK(any(s.ObjectsValue[k])))
+//@   loop 1 invariant forall k string :: k in visited ==> refsOK(any(s.ObjectsValue[k]))
+//@ func ScopeSchema.ApplySelf(s)
+//@   ensures forall k string :: k in s.ObjectsValue ==> applied(any(s.ObjectsValue[k]), s.ObjectsValue, SelfNamespace)
+
+//@ func OneOfSchema.ValidateReferences(o) -> err
+//@   ensures err == nil ==> (forall k KeyType :: k in o.TypesValue ==> refsOK(o.TypesValue[k]))
+//@   ensures err != nil ==> (exists k KeyType :: k in o.TypesValue && !refsOK(o.TypesValue[k]))
+//@   loop 1 invariant forall k KeyType :: k in visited ==> refsOK(o.TypesValue[k])
+
+//@ ospec stepLinked(st *StepSchema) bool = selfApplied(st.InputValue) && (forall o string :: o in st.OutputsValue ==> selfApplied(st.OutputsValue[o].SchemaValue)) && (forall g string :: g in st.SignalHandlersValue ==> selfApplied(st.SignalHandlersValue[g].DataSchemaValue)) && (forall g string :: g in st.SignalEmittersValue ==> selfApplied(st.SignalEmittersValue[g].DataSchemaValue))
+//@ func SchemaSchema.applyNamespace(s)
+//@   ensures forall k string :: k in s.StepsValue ==> stepLinked(s.StepsValue[k])
+//@   loop 1 invariant forall k string :: k in visited ==> stepLinked(s.StepsValue[k])
+//@   loop 2 invariant selfApplied(step.InputValue) && (forall o string :: o in visited ==> selfApplied(step.OutputsValue[o].SchemaValue)) && (forall k string :: k in $visited1 && s.StepsValue[k] != step ==> stepLinked(s.StepsValue[k]))
+//@   loop 3 invariant selfApplied(step.InputValue) && (forall o string :: o in step.OutputsValue ==> selfApplied(step.OutputsValue[o].SchemaValue)) && (forall g string :: g in visited ==> selfApplied(step.SignalHandlersValue[g].DataSchemaValue)) && (forall k string :: k in $visited1 && s.StepsValue[k] != step ==> stepLinked(s.StepsValue[k]))
+//@   loop 4 invariant selfApplied(step.InputValue) && (forall o string :: o in step.OutputsValue ==> selfApplied(step.OutputsValue[o].SchemaValue)) && (forall g string :: g in step.SignalHandlersValue ==> selfApplied(step.SignalHandlersValue[g].DataSchemaValue)) && (forall g string :: g in visited ==> selfApplied(step.SignalEmittersValue[g].DataSchemaValue)) && (forall k string :: k in $visited1 && s.StepsValue[k] != step ==> stepLinked(s.StepsValue[k]))
